@@ -1,4 +1,4 @@
-import RsMatterVerif.Lemmas.ExpandMeasure
+import RsMatterVerif.Lemmas.ExpandSwap
 /-!
 # C06 — every Interaction Model operation is mediated by the access check
 
@@ -322,6 +322,67 @@ theorem expand_at_bound_eq_expected (ctx : Ctx) (op : Operation) (node : Node) (
   rw [← expand_terminates ctx op node paths (nodeWF_sorted hn) (max f (fuelBound op node paths)) (by omega)]
   exact hf _ (by omega)
 
+/-! ## the node composition is replaced between `next` calls -/
+
+/-- **The cursor only moves forward** (the invariant documented at `resume_endpoint_index`): whatever
+node each call of `next` sees — only: its endpoints are sorted by id — the cursor positions
+`(endpoint id, cluster_index, leaf_index)` left behind by successive yields increase strictly, and
+each yielded triple sits at its cursor position in the node of its call. -/
+theorem swap_cursor_increases (ctx : Ctx) (op : Operation) (p : Path) (hsw : SupportedWildcard op p)
+    (nodes : List Node) (hsorted : ∀ n ∈ nodes, (n.map (·.id)).Pairwise (· < ·)) :
+    (runSwapC ctx op nodes { items := [], item := some p }).Pairwise (fun a b => curLt a.2 b.2) ∧
+    ∀ x ∈ runSwapC ctx op nodes { items := [], item := some p }, PosOk op nodes x :=
+  have h := runSwapC_increasing (ctx := ctx) hsw nodes hsorted nodes (fun _ h => h)
+    { items := [], item := some p } ⟨rfl, rfl⟩
+  ⟨h.2, fun x hx => (h.1 x hx).2⟩
+
+/-- **`node_swap_safe`.** A request for one wildcard path whose answer is produced while the node
+composition changes between calls (call `i` sees `nodes[i]`), under the invariants the code
+documents — every composition well-formed (endpoints sorted by id, distinct ids) and an endpoint id
+denoting the same endpoint throughout (`stableNodes`):
+1. every item was authorised on the node of its call and matches the path;
+2. no leaf is yielded twice;
+3. once the expander is exhausted, every existing, matching, reachable, permitted leaf of an
+   endpoint that is present in every composition has been yielded. -/
+theorem node_swap_safe (ctx : Ctx) (op : Operation) (p : Path) (hsw : SupportedWildcard op p)
+    (nodes : List Node) (hwfn : ∀ n ∈ nodes, nodeWF n = true) (hstab : stableNodes nodes = true)
+    (hwf : WF ctx.fabrics) (hcan : CanonicalPrivs ctx.fabrics) :
+    (∀ o ∈ runSwap ctx op nodes { items := [p] }, ∃ n ∈ nodes, ∃ ep cl lf arr,
+        o = Out.item ep cl lf true arr ∧ Authorised ctx op n (ep, cl, lf) ∧ PathMatches p ep cl lf) ∧
+    (runSwap ctx op nodes { items := [p] }).Pairwise (fun a b => tripleOf a ≠ tripleOf b) ∧
+    (swapEnded ctx op nodes { items := [p] } = true →
+      ∀ E, (∀ n ∈ nodes, E ∈ n) → matchesOpt p.endpoint E.id = true → reachable ctx E = true →
+      ∀ c ∈ E.clusters, matchesOpt p.cluster c.id = true →
+      ∀ l ∈ specLeaves c op, matchesOpt p.leaf l.id = true → ctx.filter E.id c.id l.id = true →
+        permitted ctx op E c l = none →
+        Out.item E.id c.id l.id true (op != .invoke && l.array) ∈ runSwap ctx op nodes { items := [p] }) := by
+  have hst := (stableNodes_iff nodes).mp hstab
+  obtain ⟨hr, he⟩ := runSwap_init ctx op nodes p
+  rw [hr, he]
+  have hws : WildSt p { items := [], item := some p } := ⟨rfl, rfl⟩
+  refine ⟨?_, ?_, ?_⟩
+  · exact runSwap_sound hsw nodes hst nodes (fun _ h => h) _ hws (fun _ _ _ h => by cases h)
+  · exact runSwap_no_repeat hsw nodes hwfn hst nodes (fun _ h => h) _ hws
+  · intro hend E hE hme hre c hc hmc l hl hml hfil hperm
+    have ho : Out.item E.id c.id l.id true (op != .invoke && l.array) ∈ wEndpoint ctx op p E := by
+      unfold wEndpoint
+      rw [hme, hre]
+      simp only [Bool.and_self, if_true]
+      refine List.mem_flatMap.mpr ⟨c, hc, ?_⟩
+      unfold wCluster
+      rw [hmc]
+      simp only [if_true]
+      refine List.mem_filterMap.mpr ⟨l, hl, ?_⟩
+      unfold wItem
+      simp [hml, hfil, hperm]
+    apply runSwap_complete hsw nodes hwfn hst hwf hcan E hE _ ho nodes (fun _ h => h) _ hws
+      (fun _ _ _ h => by cases h) (Or.inl rfl) ?_ hend
+    intro n hn
+    unfold pendW
+    simp only [resumeEndpointIndex, List.drop_zero]
+    rw [wEndpointsFrom_zero]
+    exact List.mem_flatMap.mpr ⟨E, hE n hn, ho⟩
+
 /-! ## non-vacuity -/
 
 /-- endpoint 0: cluster 31 with attribute 0 (`RWVA`) and command 0 (`WA`, fabric-scoped);
@@ -396,5 +457,22 @@ example : (demoNode.map (·.id)).Pairwise (· < ·) := by decide
 example : expand (demoCtx false) .read demoNode [wild, conc 0 31 0, wild] (fuelBound .read demoNode [wild, conc 0 31 0, wild]) =
     [.item 1 6 0 true false, .item 1 6 1 true false, .status (conc 0 31 0) .unsupportedAccess,
      .item 1 6 0 true false, .item 1 6 1 true false] := by decide
+
+/-- node swap: endpoint 0 disappears after the first call and endpoint 2 (a copy of endpoint 1's
+shape under another id) appears; nothing is repeated, endpoint 1 (present throughout) is complete -/
+def demoNode2 : Node :=
+  [ demoNode[1]!, { id := 2, deviceTypes := [256], clusters := demoNode[1]!.clusters } ]
+def demoAclAll : List Fabric :=
+  [ { fabIdx := 1,
+      acl := [ { privilege := PRIV_ADMIN, authMode := .case, subjects := some [5], targets := none, fabIdx := some 1 } ],
+      groups := [] } ]
+def demoCtxAll : Ctx := { demoCtx false with fabrics := demoAclAll }
+example : stableNodes [demoNode, demoNode2, demoNode2, demoNode, demoNode] = true ∧
+    nodeWF demoNode2 = true := by decide
+example : runSwap demoCtxAll .read [demoNode, demoNode2, demoNode2, demoNode, demoNode, demoNode] { items := [wild] } =
+    [.item 0 31 0 true true, .item 1 6 0 true false, .item 1 6 1 true false] ∧
+    swapEnded demoCtxAll .read [demoNode, demoNode2, demoNode2, demoNode, demoNode, demoNode] { items := [wild] } = true := by
+  decide
+example : SupportedWildcard .read wild := ⟨rfl, Or.inl rfl⟩
 
 end C06
